@@ -376,22 +376,18 @@ Definition stale_cb (st : state) (t : tid) : bool :=
   end.
 
 (* ---------- clean steps: the hypotheses under which the defect F6 is absent ----------
-   (H1) the step does not remove from the map an entry whose element a writer
-        holds or waits for, unless that element is scrapped afterwards (the
-        writer's own error path / failing Commit);
-   (H2) the step is not the scrapped check of a WRITING access that finds the
+   An element is PROTECTED when a writer holds it, waits for it (announced), or
+   has looked it up and is about to lock it.
+   (H1) the step does not remove the map entry of a protected element, unless
+        that element is scrapped (error path / failing Commit);
+   (H2) the step is not the scrapped check of a WRITING access that finds its
         element scrapped (the writer would go on with a temporary copy while
         the name is unregistered). *)
-Definition keepsb (st st' : state) : bool :=
-  forallb (fun ne : name * eid =>
-             match e_writer (elems st (snd ne)) with
-             | None => true
-             | Some _ => e_scrapped (elems st' (snd ne)) ||
-                         match lookup (fst ne) (mmap st') with
-                         | Some e' => Nat.eqb e' (snd ne)
-                         | None => false
-                         end
-             end) (mmap st).
+Definition protected (st : state) (e : eid) : Prop :=
+  e_writer (elems st e) <> None \/ exists t w, ph (txs st t) = PLock w e /\ w_ro w = false.
+Definition keeps (st st' : state) : Prop :=
+  forall n e, lookup n (mmap st) = Some e -> protected st e ->
+    e_scrapped (elems st' e) = true \/ lookup n (mmap st') = Some e.
 Definition no_writer_on_scrappedb (st : state) (l : label) : bool :=
   match l with
   | LT t => match ph (txs st t) with
@@ -400,47 +396,71 @@ Definition no_writer_on_scrappedb (st : state) (l : label) : bool :=
             end
   | LDel _ => true
   end.
-Definition clean_atb (fixed : bool) (limit : Z) (st : state) (l : label) : bool :=
-  keepsb st (next fixed limit st l) && no_writer_on_scrappedb st l.
-Fixpoint cleanb (fixed : bool) (limit : Z) (ls : list label) (st : state) : bool :=
+Definition clean_at (fixed : bool) (limit : Z) (st : state) (l : label) : Prop :=
+  keeps st (next fixed limit st l) /\ no_writer_on_scrappedb st l = true.
+Fixpoint clean (fixed : bool) (limit : Z) (ls : list label) (st : state) : Prop :=
   match ls with
-  | [] => true
-  | l :: r => clean_atb fixed limit st l && cleanb fixed limit r (next fixed limit st l)
+  | [] => True
+  | l :: r => clean_at fixed limit st l /\ clean fixed limit r (next fixed limit st l)
   end.
+(* boolean version for transactions 0..ntx-1 (used by Run_C11 to cross-check the
+   tag the harness puts on schedules that meet the precondition of F6) *)
+Definition protectedb (ntx : nat) (st : state) (e : eid) : bool :=
+  (match e_writer (elems st e) with Some _ => true | None => false end) ||
+  existsb (fun t => match ph (txs st t) with
+                    | PLock w e' => Nat.eqb e' e && negb (w_ro w)
+                    | _ => false end) (seq 0 ntx).
+Definition keepsb (ntx : nat) (st st' : state) : bool :=
+  forallb (fun ne : name * eid =>
+             negb (protectedb ntx st (snd ne)) || e_scrapped (elems st' (snd ne)) ||
+             match lookup (fst ne) (mmap st') with
+             | Some e' => Nat.eqb e' (snd ne)
+             | None => false
+             end) (mmap st).
+Definition clean_atb (ntx : nat) (fixed : bool) (limit : Z) (st : state) (l : label) : bool :=
+  keepsb ntx st (next fixed limit st l) && no_writer_on_scrappedb st l.
 
-(* programs of the quantifier: accesses, then one Commit *)
-Definition is_with (o : op) : bool := match o with OWith _ _ _ => true | OCommit _ => false end.
-Definition wf_prog (p : list op) : Prop :=
-  exists ws fl, p = ws ++ [OCommit fl] /\ forallb is_with ws = true.
+(* programs of the quantifier: accesses, then (at most) one Commit, nothing after it *)
+Fixpoint wf_prog (p : list op) : Prop :=
+  match p with
+  | [] => True
+  | OCommit _ :: r => r = []
+  | OWith _ _ _ :: r => wf_prog r
+  end.
 
 (* ---------- driving the model at the granularity the harness observes ----------
    The harness can hold a transaction only at: before an operation, inside the
-   callback.  `drive` runs t to its next such point (or until it blocks). *)
+   callback.  `drive` runs t to its next such point (or until it blocks).  The
+   boolean carried along is the conjunction of clean_atb over the fine steps. *)
 Definition at_pause (p : phase) : bool :=
   match p with PIdle | PIn _ _ => true | _ => false end.
-Fixpoint drive_more (fuel : nat) (fixed : bool) (limit : Z) (st : state) (t : tid) : state :=
+Definition fstep (ntx : nat) (fixed : bool) (limit : Z) (sb : state * bool) (l : label) : option (state * bool) :=
+  match lstep fixed limit (fst sb) l with
+  | Some st' => Some (st', snd sb && clean_atb ntx fixed limit (fst sb) l)
+  | None => None
+  end.
+Fixpoint drive_more (ntx fuel : nat) (fixed : bool) (limit : Z) (sb : state * bool) (t : tid) : state * bool :=
   match fuel with
-  | O => st
-  | S f => if at_pause (ph (txs st t)) then st
-           else match step fixed limit st t with
-                | Some st' => drive_more f fixed limit st' t
-                | None => st
+  | O => sb
+  | S f => if at_pause (ph (txs (fst sb) t)) then sb
+           else match fstep ntx fixed limit sb (LT t) with
+                | Some sb' => drive_more ntx f fixed limit sb' t
+                | None => sb
                 end
   end.
-Definition drive (fixed : bool) (limit : Z) (st : state) (t : tid) : state :=
-  match step fixed limit st t with
-  | Some st' => drive_more 16 fixed limit st' t
-  | None => st
+Definition drive (ntx : nat) (fixed : bool) (limit : Z) (sb : state * bool) (l : label) : state * bool :=
+  match fstep ntx fixed limit sb l with
+  | Some sb' => match l with LT t => drive_more ntx 16 fixed limit sb' t | LDel _ => sb' end
+  | None => sb
   end.
 (* transactions blocked inside With move on as soon as they can *)
-Fixpoint settle_list (fixed : bool) (limit : Z) (ts : list tid) (st : state) : state :=
+Fixpoint settle_list (ntx : nat) (fixed : bool) (limit : Z) (ts : list tid) (sb : state * bool) : state * bool :=
   match ts with
-  | [] => st
-  | t :: r => settle_list fixed limit r
-                (if at_pause (ph (txs st t)) then st else drive_more 16 fixed limit st t)
+  | [] => sb
+  | t :: r => settle_list ntx fixed limit r (drive_more ntx 16 fixed limit sb t)
   end.
-Fixpoint settle (fuel : nat) (fixed : bool) (limit : Z) (ntx : nat) (st : state) : state :=
+Fixpoint settle (fuel : nat) (fixed : bool) (limit : Z) (ntx : nat) (sb : state * bool) : state * bool :=
   match fuel with
-  | O => st
-  | S f => settle f fixed limit ntx (settle_list fixed limit (seq 0 ntx) st)
+  | O => sb
+  | S f => settle f fixed limit ntx (settle_list ntx fixed limit (seq 0 ntx) sb)
   end.
